@@ -38,6 +38,8 @@ def cases(tier, seed):
             c["store1"] = ["files", "files+levels"][(i // 8) % 2]
         if i % 8 == 6:      # ... or is reached through `<symlinked directory>/../plt1`
             c["reach1"] = True
+        if i % 8 == 7:      # maxima whose text is longer than the text of every minimum of their level
+            c["long_max"] = True
         if i % 8 == 5:      # the first input's level directories carry another prefix than the default
             c["level_prefix1"] = ["Lev_", "amr_level_"][(i // 8) % 2]
         if i % 8 == 1:      # file numbers of five and six digits at one level
@@ -131,6 +133,9 @@ def run_case(case, work, rec):
     m1 = gen.gen_model(names=n1, shuffle=case["shuffle1"], **g)
     m2base = gen.gen_model(names=n2, data_seed=g["seed"] + 1, **g)
     assert [b.key() for b in m1.boxes[0]] == [b.key() for b in m2base.boxes[0]]
+    if case.get("long_max"):
+        gen.plant_long_max(m1, g["seed"]); gen.plant_long_max(m2base, g["seed"] + 1)
+        rec.count("long_maximum_tokens")
     # the second input starts from the first one's layout, then the relation is applied
     m2base.layout = [dict(l) for l in m1.copy().layout]
     p1 = os.path.join(work, "plt1")
